@@ -165,6 +165,7 @@ func FileSize(path string) int64 {
 	return fi.Size()
 }
 func FileBytes(path string) []byte { b, _ := os.ReadFile(path); return b }
+func FileView(path string) []byte  { b, _ := os.ReadFile(path); return b }
 func WriteFileBytes(path string, b []byte) {
 	if err := os.WriteFile(path, b, 0o644); err != nil {
 		panic(err)
